@@ -72,7 +72,7 @@ ASSUMPTIONS = ["process death only (SIGKILL / crash): everything written with wr
 REACH = ["crash_points", "crash_inside_schema_script", "crash_between_insert_and_commit", "crash_after_ack",
          "crash_after_commit", "crash_after_close", "wal_present_at_crash", "shm_present_at_crash", "reopen_cycles",
          "second_crash_during_recovery", "inflight_record_visible", "inflight_record_absent", "overflow_row",
-         "crash_on_empty_directory"]
+         "crash_before_first_page_written"]
 SHRINK_FIELDS = ("ops",)
 
 ROOT = os.path.dirname(os.path.dirname(os.path.abspath(__file__)))
@@ -81,7 +81,7 @@ ID_FILE = "identity.db"
 N_PSEUDONYMS = 2
 N_AUTHORITIES = 2
 KILL_CALLS = ("pwrite64", "write", "ftruncate", "fsync", "fdatasync", "unlink")
-N_SEEDED = {"quick": 120, "thorough": 4000}
+N_SEEDED = {"quick": 60, "thorough": 2000}
 
 
 class HarnessProblem(Exception):
@@ -650,6 +650,8 @@ class _Eval:
         self.found: dict = {}
         self.n_eval = 0
         self.rows: list = []
+        self.db_size: dict = {}
+        self.no_reopen = not any(o.get("op") == "reopen" for o in ops)
 
     def _note(self, spec, point: dict, where: str, problems: list, sub_last: dict | None = None,  # noqa: ANN001
               inherit: dict | None = None) -> list:
@@ -677,12 +679,13 @@ class _Eval:
             acked = set(self.runner.acked[:p["na"]])
             subsel = self.sel.sub(k)
             sub = _Recorder(os.path.join(p["dir"], "sqlite"), self.root, f"r{k}_", subsel) if subsel else None
+            sq = os.path.join(p["dir"], "sqlite")
+            files = {f: os.path.getsize(os.path.join(sq, f)) for f in sorted(os.listdir(sq))}   # before recovery touches them
             problems, stats = _verify(p["dir"], self.keys, self.uses, self.runner.records, acked, p["no"], sub)
             if sub is not None:
                 sub.check()
             inherit = {prob[1]: _where_key(prob, p["last"]) for prob in problems if prob[2]}
             # ---- reach probes / coverage keys
-            files = os.listdir(os.path.join(p["dir"], "sqlite"))
             if self.sel.report_primary(k):
                 self.n_eval += 1
                 c.probe("crash_points")
@@ -696,14 +699,20 @@ class _Eval:
                     c.probe("crash_after_commit")
                 if tag == "after_close":
                     c.probe("crash_after_close")
-                if not files:
-                    c.probe("crash_on_empty_directory")
-                if any(f.endswith("-wal") and os.path.getsize(os.path.join(p["dir"], "sqlite", f)) > 0 for f in files):
+                if any(f.endswith(".db") and size == 0 for f, size in files.items()):
+                    c.probe("crash_before_first_page_written")
+                if any(f.endswith("-wal") and size > 0 for f, size in files.items()):
                     c.probe("wal_present_at_crash")
                 if any(f.endswith("-shm") for f in files):
                     c.probe("shm_present_at_crash")
                 if any(f.endswith("-journal") for f in files):
                     c.probe("journal_present_at_crash")
+                for f, size in files.items():
+                    if f.endswith(".db"):
+                        # in WAL mode the main file only changes when a checkpoint runs
+                        if self.no_reopen and p["na"] > 0 and size > self.db_size.get(f, size):
+                            c.probe("checkpoint_while_open")
+                        self.db_size[f] = size
                 if stats["inflight"] is True:
                     c.probe("inflight_record_visible")
                 elif stats["inflight"] is False:
@@ -734,9 +743,12 @@ class _Eval:
     def report(self) -> None:
         for key in sorted(self.found):
             ent = self.found[key]
-            self.c.violate(ent["oracle"], key, f"{len(ent['points'])} crash state(s) {ent['points'][:8]}; first: {ent['msg']}")
+            first = [sp for sp in ent["points"] if not isinstance(sp, list)]
+            second = [sp for sp in ent["points"] if isinstance(sp, list)]
+            self.c.violate(ent["oracle"], key, f"{len(first)} first-crash state(s) {first[:8]} and {len(second)} second-crash "
+                                               f"state(s) {second[:4]}; first found: {ent['msg']}")
             if self.c.violations and self.c.violations[-1]["key"] == key:
-                self.c.violations[-1]["crash_points"] = ent["points"][:64]
+                self.c.violations[-1]["crash_points"] = first[:16] + second[:16]
 
 
 def _where_key(prob: tuple, last: dict, sub_last: dict | None = None) -> str:
@@ -982,8 +994,8 @@ def _exec_strace(c, case: dict, tmp: str) -> int:  # noqa: ANN001
             msg = f"child exited normally with {len(acked)} acks of {len(records)}"
             raise HarnessProblem(msg)
         n_off = len(records)
-    problems, stats = _verify(work, keys, _uses(case["ops"]), records, acked, n_off, None)
     files = sorted(os.listdir(os.path.join(work, "sqlite"))) if os.path.isdir(os.path.join(work, "sqlite")) else []
+    problems, stats = _verify(work, keys, _uses(case["ops"]), records, acked, n_off, None)
     if any(f.endswith("-wal") for f in files):
         c.probe("wal_present_at_crash")
     where = f"kill_before_{kill['call']}"
@@ -1162,7 +1174,7 @@ def cases(tier: str, base_seed: int):  # noqa: ANN201
             yield {"scenario": "scripted", "name": name, "seed": 1000 + i, "ops": ops,
                    "crash": {"mod": split, "rem": r}, "recovery": "all"}
     if tier == "thorough":
-        for probe in ("strace_kills", "selfkill_children", "copy_model_agrees"):
+        for probe in ("strace_kills", "selfkill_children", "copy_model_agrees", "checkpoint_while_open"):
             if probe not in REACH:
                 REACH.append(probe)
         scripted = dict(_scripted())
@@ -1192,7 +1204,7 @@ def simplify(case: dict):  # noqa: ANN201
     """After ddmin over the ops: pin the case to single crash points (the runner keeps a candidate if the key survives)."""
     if case.get("scenario") in ("strace",) or isinstance(case.get("crash"), list):
         return
-    res = execute(dict(case, scenario="scripted" if case.get("scenario") == "selfkill" else case.get("scenario")))
+    res = execute(dict(case, scenario="pinned", crash="all", recovery="none" if case.get("scenario") == "selfkill" else "all"))
     for second in (True, False):          # first-crash-only candidates last: the runner keeps the last one that still fails
         for v in res.get("violations", []):
             specs = [sp for sp in v.get("crash_points", []) if isinstance(sp, list) == second]
